@@ -210,7 +210,11 @@ func c17run(t *testing.T, out *verifh.Out, scns []c17scn, dir string) {
 				app.repairOfflineMode(cs, "m")
 				evs := wd.TakeLog()
 				offl, onl, other := []string{}, []string{}, []string{}
+				lastUpdates := 0
 				for _, e := range evs {
+					if e.Kind == "dcs" && (e.Op == "set" || e.Op == "create") && e.Host == "last_shutdown_node_time" {
+						lastUpdates++
+					}
 					if e.Kind != "sql" || !fakes.IsMutating(e.Op) {
 						continue
 					}
@@ -225,7 +229,7 @@ func c17run(t *testing.T, out *verifh.Out, scns []c17scn, dir string) {
 					}
 				}
 				out.Line(map[string]any{"k": "c17pass", "cfg": cfgj, "master": "m", "cs": vCSList(cs), "offline": offl, "online": onl, "other": other,
-					"resetup": resetupDesc, "master_marked": s.masterMarked})
+					"resetup": resetupDesc, "master_marked": s.masterMarked, "last_updates": lastUpdates, "last_shut": s.lastShut})
 			}
 			vClose(app)
 		}
@@ -246,9 +250,7 @@ func TestVerifC17(t *testing.T) {
 		for range c17hosts {
 			rp := c17repl{present: r.Intn(5) != 0, pingOk: r.Intn(8) != 0, offline: r.Intn(3) == 0, lag: lags[r.Intn(len(lags))],
 				resetup: r.Intn(5), offFault: perHost && r.Intn(10) == 0}
-			if perHost {
-				rp.broken = r.Intn(5) == 0
-			}
+			rp.broken = r.Intn(5) == 0
 			if r.Intn(3) == 0 { // bias towards "everybody lags" so that the cap matters
 				rp.lag = []int{500000, 100400}[r.Intn(2)]
 				rp.offline = false
@@ -259,7 +261,14 @@ func TestVerifC17(t *testing.T) {
 			s.repl = append(s.repl, rp)
 		}
 		if !perHost {
-			s.lastShut = 0
+			// whole passes: the record of the last shutdown is old or recent; broken replicas do not lag (so that the two
+			// reasons for going offline stay apart and the order-free monitors of a pass apply)
+			s.lastShut = 1 + r.Intn(2)
+			for i := range s.repl {
+				if s.repl[i].broken {
+					s.repl[i].lag = []int{0, 29000, 50000}[r.Intn(3)]
+				}
+			}
 		}
 		return s
 	}
